@@ -171,6 +171,13 @@ def check_fingering(ctx, case):
     t = _tunings()[ti]
     op = _open(t)
     notes = [Note(p) for p in pitches]
+    # an earlier call that ends in an error half-way (a playable note followed by something that is not a note) must not
+    # influence later answers
+    for junk in (["%s-%d" % (Note(op[0] + 2).name, Note(op[0] + 2).octave), "H-1"], [Note(op[-1] + 1), "not a note"], [Note(op[0]), None]):
+        try:
+            t.find_fingering(junk, md)
+        except Exception:  # noqa - rejected input
+            pass
     r = ctx.ok("find_fingering", t.find_fingering, notes, md)
     if failed(r):
         return
@@ -278,7 +285,16 @@ def check_tab(ctx, case):
         ps = _entry_pitches(op, case["pos"])
         if kind == "note":
             ps = ps[:1]
-            text = ctx.ok("from_Note", TB.from_Note, Note(ps[0]), width, t)
+            note = Note(ps[0])
+            force = case.get("force")
+            if force:  # 'string' / 'fret' attributes: taken from this tuning, or left over from another tuning
+                src = t if force == "same" else plain[(ti + 5) % len(plain)]
+                so = _open(src)
+                cands = [(s_, ps[0] - o_) for s_, o_ in enumerate(so) if 0 <= ps[0] - o_ <= 24]
+                if cands:
+                    s_, f_ = cands[case.get("force_pick", 0) % len(cands)]
+                    note = src.get_Note(s_, f_)
+            text = ctx.ok("from_Note", TB.from_Note, note, width, t)
         else:
             text = ctx.ok("from_NoteContainer", TB.from_NoteContainer, NoteContainer([Note(p) for p in ps]), width, t)
         if failed(text):
@@ -464,7 +480,8 @@ def _tab_st():
     bar = st.fixed_dictionaries({"meter": st.sampled_from([[4, 4], [3, 4], [2, 4], [6, 8], [2, 2], [5, 4]]), "entries": st.lists(entry, min_size=1, max_size=8)})
     track = st.lists(bar, min_size=1, max_size=5)
     width = st.sampled_from([40, 60, 61, 80, 100, 120, 121, 160]) | st.integers(40, 160)
-    small = st.fixed_dictionaries({"kind": st.sampled_from(["note", "nc"]), "tuning": st.integers(0, 100), "width": st.integers(20, 160), "pos": _pos_st()})
+    small = st.fixed_dictionaries({"kind": st.sampled_from(["note", "nc"]), "tuning": st.integers(0, 100), "width": st.integers(20, 160), "pos": _pos_st(),
+                                   "force": st.sampled_from([None, "same", "other", "other"]), "force_pick": st.integers(0, 5)})
     big = st.fixed_dictionaries({"kind": st.sampled_from(["bar", "track", "track", "comp"]), "tuning": st.integers(0, 100), "width": width,
                                  "tracks": st.lists(track, min_size=1, max_size=3), "use_track_tuning": st.booleans(),
                                  "other_own_tuning": st.booleans()})
